@@ -143,6 +143,23 @@ Fixpoint gens (ops : list mop) : list N :=
   end.
 
 (* ------------------------------------------------------------------ *)
+(* persistent storage faults                                           *)
+(* ------------------------------------------------------------------ *)
+Inductive dur := Calls (n : N) | Forever.       (* how many more calls the fault lasts *)
+Record faults := { fw_save : save_fault * dur;
+                   fw_del  : del_fault * dur;
+                   fw_read : read_fault * dur }.
+Definition no_faults : faults :=
+  {| fw_save := (SaveOk, Calls 0); fw_del := (DelOk, Calls 0); fw_read := (ReadOk, Calls 0) |}.
+Definition active (d : dur) : bool :=
+  match d with Calls n => negb (N.eqb n 0) | Forever => true end.
+Definition tick (d : dur) : dur :=
+  match d with Calls n => Calls (N.pred n) | Forever => Forever end.
+(* the outcome of one call that the operation wants to be [f] *)
+Definition eff {A} (w : A * dur) (f : A) : A := if active (snd w) then fst w else f.
+Definition used {A} (w : A * dur) : A * dur := (fst w, tick (snd w)).
+
+(* ------------------------------------------------------------------ *)
 (* the operations of the driver                                        *)
 (* ------------------------------------------------------------------ *)
 Inductive op :=
@@ -154,26 +171,52 @@ Inductive op :=
 | GetCrash (t : N)                  (* the process dies inside Delete, after the entry was removed *)
 | Stop                              (* the scheduler cancels the worker context *)
 | Resume
-| Restart (f : read_fault).         (* crash + new pool over the same storage *)
+| Restart (f : read_fault)          (* crash + new pool over the same storage *)
+| FaultSave (f : save_fault) (d : dur)   (* the storage: the next d Save calls answer f *)
+| FaultDel (f : del_fault) (d : dur)
+| FaultRead (f : read_fault) (d : dur).
 
-Definition expand (o : op) : list mop :=
+(* the micro steps of an operation when the storage's fault windows are [w] *)
+Definition expand (w : faults) (o : op) : list mop :=
   match o with
-  | Gen v f => [MSave v f; MPushAll]
+  | Gen v f => [MSave v (eff (fw_save w) f); MPushAll]
   | GenNil => []
   | GenCrash v stored => [MSave v (if stored then SaveErrStored else SaveErr)]
   | GetBegin t => [MRecv t; MPushAll]
-  | GetEnd t f => [MDel t f]
+  | GetEnd t f => [MDel t (eff (fw_del w) f)]
   | GetCrash t => [MDel t DelErrDeleted]
   | Stop => [MDropAll]
   | Resume => []
-  | Restart f => [MRestart f]
+  | Restart f => [MRestart (eff (fw_read w) f)]
+  | FaultSave _ _ | FaultDel _ _ | FaultRead _ _ => []
+  end.
+
+(* the windows after the operation: pool.go calls Save once per generated value, Delete once
+   per GetNow that received a value, ReadAll once per NewParameterPool; a call that never
+   returns (the crashes) is not answered by the window *)
+Definition wnext (w : faults) (o : op) : faults :=
+  match o with
+  | Gen _ _ => {| fw_save := used (fw_save w); fw_del := fw_del w; fw_read := fw_read w |}
+  | GetEnd _ _ => {| fw_save := fw_save w; fw_del := used (fw_del w); fw_read := fw_read w |}
+  | Restart _ => {| fw_save := fw_save w; fw_del := fw_del w; fw_read := used (fw_read w) |}
+  | FaultSave f d => {| fw_save := (f, d); fw_del := fw_del w; fw_read := fw_read w |}
+  | FaultDel f d => {| fw_save := fw_save w; fw_del := (f, d); fw_read := fw_read w |}
+  | FaultRead f d => {| fw_save := fw_save w; fw_del := fw_del w; fw_read := (f, d) |}
+  | _ => w
+  end.
+
+(* the micro-step history of a list of operations *)
+Fixpoint hist (w : faults) (ops : list op) : list mop :=
+  match ops with
+  | [] => []
+  | o :: t => expand w o ++ hist (wnext w o) t
   end.
 
 (* what the driver observes of one operation: the result of its first micro step, except
    that a crashed call returns nothing *)
-Definition cstep (k : nat) (s : mst) (o : op) : mst * res :=
-  let s' := mrun k s (expand o) in
-  (s', match o, expand o with
+Definition cstep (k : nat) (w : faults) (s : mst) (o : op) : mst * res :=
+  let s' := mrun k s (expand w o) in
+  (s', match o, expand w o with
        | GetCrash _, _ => RNone
        | _, m :: _ => snd (mstep k s m)
        | _, [] => RNone
@@ -184,7 +227,9 @@ Definition cstep (k : nat) (s : mst) (o : op) : mst * res :=
 (* ------------------------------------------------------------------ *)
 Record obs := { o_res : res;          (* result of the call *)
                 o_count : N;          (* ParametersCount() after the operation *)
-                o_store : list N }.   (* what the storage holds after the operation *)
+                o_store : list N;     (* what the storage holds after the operation *)
+                o_kept : bool }.      (* GetNow returned a value whose storage entry still
+                                         existed at the moment of the return *)
 
 Record case := { c_k : N; c_store0 : list N; c_boot : read_fault;
                  c_obs0 : obs;                  (* after NewParameterPool *)
@@ -203,17 +248,19 @@ Fixpoint list_eqb (a b : list N) : bool :=
   | _, _ => false
   end.
 Definition obs_eqb (a b : obs) : bool :=
-  res_eqb (o_res a) (o_res b) && N.eqb (o_count a) (o_count b) && list_eqb (o_store a) (o_store b).
+  res_eqb (o_res a) (o_res b) && N.eqb (o_count a) (o_count b) && list_eqb (o_store a) (o_store b)
+  && Bool.eqb (o_kept a) (o_kept b).
 
 Definition model_obs (s : mst) (r : res) : obs :=
-  {| o_res := r; o_count := N.of_nat (length (pool s)); o_store := store s |}.
+  {| o_res := r; o_count := N.of_nat (length (pool s)); o_store := store s;
+     o_kept := match r with RVal x => memN x (store s) | _ => false end |}.
 
-Fixpoint agree_steps (k : nat) (s : mst) (steps : list (op * obs)) : bool :=
+Fixpoint agree_steps (k : nat) (w : faults) (s : mst) (steps : list (op * obs)) : bool :=
   match steps with
   | [] => true
   | (o, ob) :: t =>
-      let '(s', r) := cstep k s o in
-      obs_eqb ob (model_obs s' r) && agree_steps k s' t
+      let '(s', r) := cstep k w s o in
+      obs_eqb ob (model_obs s' r) && agree_steps k (wnext w o) s' t
   end.
 
 (* the values the generator has produced / GetNow has returned in a driver history *)
@@ -226,8 +273,10 @@ Definition res_handed (r : res) : list N :=
    [known]  : what the storage held at start plus everything generated so far
    [hd]     : everything GetNow has returned so far
    per observation: no panic, no nil; the pool holds at most k; a returned value is a known
-   one, was never returned before, and neither it nor any earlier returned value is in the
-   storage (it was deleted before the hand-out and nothing brings it back). *)
+   one, was never returned before (in this or an earlier process: [hd] runs across restarts),
+   its storage entry was gone at the moment GetNow returned it ([o_kept], recorded by the
+   fake persistence), and neither it nor any earlier returned value is in the storage after
+   the operation (it was deleted before the hand-out and nothing brings it back). *)
 Definition disjointb (a b : list N) : bool := forallb (fun x => negb (memN x b)) a.
 Definition obs_ok (k : N) (known hd : list N) (ob : obs) : bool :=
   match o_res ob with
@@ -236,7 +285,8 @@ Definition obs_ok (k : N) (known hd : list N) (ob : obs) : bool :=
   | _ => true
   end
   && (o_count ob <=? k)%N
-  && disjointb (res_handed (o_res ob) ++ hd) (o_store ob).
+  && disjointb (res_handed (o_res ob) ++ hd) (o_store ob)
+  && negb (o_kept ob).
 
 Fixpoint steps_ok (k : N) (known hd : list N) (steps : list (op * obs)) : bool :=
   match steps with
@@ -263,20 +313,23 @@ Definition spec_prop (c : case) : Prop :=
   (* the pool never holds more than its capacity; no call panics or returns nil *)
   (forall ob, In ob (obs_list c) ->
      (o_count ob <= c_k c)%N /\ o_res ob <> RPanic /\ o_res ob <> RNil) /\
+  (* at no hand-out did the value's storage entry still exist *)
+  (forall ob, In ob (obs_list c) -> o_kept ob = false) /\
   (* a value returned by GetNow is not in the storage when the call returns, nor ever after *)
   (forall l1 ob l2, obs_list c = l1 ++ ob :: l2 ->
      forall x, In x (handed_obs (l1 ++ [ob])) -> ~ In x (o_store ob)).
 
 (* the model's own observations of a list of operations, as a case *)
-Fixpoint model_steps (k : nat) (s : mst) (ops : list op) : list (op * obs) :=
+Fixpoint model_steps (k : nat) (w : faults) (s : mst) (ops : list op) : list (op * obs) :=
   match ops with
   | [] => []
-  | o :: t => (o, model_obs (fst (cstep k s o)) (snd (cstep k s o))) :: model_steps k (fst (cstep k s o)) t
+  | o :: t => (o, model_obs (fst (cstep k w s o)) (snd (cstep k w s o)))
+              :: model_steps k (wnext w o) (fst (cstep k w s o)) t
   end.
 Definition model_case (k : nat) (st0 : list N) (f : read_fault) (ops : list op) : case :=
   {| c_k := N.of_nat k; c_store0 := st0; c_boot := f;
      c_obs0 := model_obs (boot k st0 f) RNone;
-     c_steps := model_steps k (boot k st0 f) ops |}.
+     c_steps := model_steps k no_faults (boot k st0 f) ops |}.
 
 Fixpoint nodupb (l : list N) : bool :=
   match l with
@@ -291,18 +344,18 @@ Definition wf (c : case) : bool :=
 Definition agree (c : case) : bool :=
   let k := N.to_nat (c_k c) in
   let s0 := boot k (c_store0 c) (c_boot c) in
-  obs_eqb (c_obs0 c) (model_obs s0 RNone) && agree_steps k s0 (c_steps c).
+  obs_eqb (c_obs0 c) (model_obs s0 RNone) && agree_steps k no_faults s0 (c_steps c).
 
 Definition judge (c : case) : verdict :=
   if negb (wf c) then BadCase else decide (spec_ok c) (agree c).
 
 (* what --replay prints: the model's own observations *)
-Fixpoint explain_steps (k : nat) (s : mst) (ops : list op) : list obs :=
+Fixpoint explain_steps (k : nat) (w : faults) (s : mst) (ops : list op) : list obs :=
   match ops with
   | [] => []
-  | o :: t => let '(s', r) := cstep k s o in model_obs s' r :: explain_steps k s' t
+  | o :: t => let '(s', r) := cstep k w s o in model_obs s' r :: explain_steps k (wnext w o) s' t
   end.
 Definition explain (c : case) : list obs :=
   let k := N.to_nat (c_k c) in
   let s0 := boot k (c_store0 c) (c_boot c) in
-  model_obs s0 RNone :: explain_steps k s0 (map fst (c_steps c)).
+  model_obs s0 RNone :: explain_steps k no_faults s0 (map fst (c_steps c)).
